@@ -170,7 +170,7 @@ func checkC14() *rtCheck {
 			}
 			return cs
 		},
-		Judge: oracle.C14, Floor: [2]int{300, 8000}, Unions: true, Multipart: true,
+		Judge: oracle.C14, Floor: [2]int{300, 8000}, Unions: true, Multipart: true, MultipartFew: true,
 		NonTrivial: func(ex *rt.Exchange) bool { return ex.WireResp != nil },
 	}
 }
